@@ -33,7 +33,7 @@ def proj_lines(kinds, poll_fields=None, dlv_fields=None):
 
 # poll: 0 poll 1 e 2 c 3 a 4 state 5 events 6 value 7 elapsed 8 fired
 # dlv : 0 dlv 1 e 2 a 3 kind 4 state 5 value 6 elapsed 7 fired
-ALL = {"op", "frame", "inv", "dlv", "poll", "has", "groups", "endframe", "panic", "r", "error"}
+ALL = {"op", "frame", "inv", "dlv", "poll", "has", "groups", "endframe", "panic", "r", "error", "probe", "sched"}
 P_ALL = proj_lines(ALL)
 P_NO_INV = proj_lines(ALL - {"inv"})
 P_EVENTS = proj_lines({"op", "frame", "dlv", "poll", "endframe", "panic"})
